@@ -493,7 +493,8 @@ Section Names.
     NoDup (map fst m) /\
     (unnamed t -> forall nm q, In (nm, q) m <-> name_at t' q = Some nm) /\
     (forall q, In q (map snd m) <->
-       (operand_path t q \/ ((forall q', ~ operand_path t q') /\ q = []))).
+       (operand_path t q \/ ((forall q', ~ operand_path t q') /\ q = []))) /\
+    (forall nm q, In (nm, q) m -> name_at t' q = Some nm).
   Proof.
     unfold auto_name_with.
     destruct (an_go t [] None) as [[[t0 st] mp]|] eqn:Hgo; [|discriminate].
@@ -514,9 +515,12 @@ Section Names.
              simpl in Hnm. inversion Hnm; subst. left. reflexivity.
           -- exfalso. unfold name_at in Hnm. rewrite subtree_set_name in Hnm by discriminate.
              apply (Hbw Hu (j :: q) nm'); [discriminate|exact Hnm].
-      + intros q. simpl. split.
-        * intros [Hq|[]]. right. auto.
-        * intros [Hq|[_ Hq]]; [exfalso; apply (Hnone q Hq)|left; auto].
+      + split.
+        * intros q. simpl. split.
+          -- intros [Hq|[]]. right. auto.
+          -- intros [Hq|[_ Hq]]; [exfalso; apply (Hnone q Hq)|left; auto].
+        * intros nm' q [Hin|[]]. inversion Hin; subst. unfold name_at, name_of, set_name. simpl.
+          rewrite meta_set_meta. reflexivity.
     - intros H; inversion H; subst; clear H.
       split; [exact Hnd|]. split.
       + intros Hu nm q. split.
@@ -525,12 +529,14 @@ Section Names.
           -- exfalso. unfold name_at in Hnm. simpl in Hnm. rewrite Hroot in Hnm.
              specialize (Hu []). unfold name_at in Hu. simpl in Hu. congruence.
           -- apply (Hbw Hu (j :: q) nm); [discriminate|exact Hnm].
-      + intros q. rewrite (Hpaths q). simpl. split.
-        * intros [q1 [Hq Hop]]. subst. left. exact Hop.
-        * intros [Hop|[Hnone _]]; [exists q; auto|].
-          exfalso. destruct e as [nm0 p0].
-          destruct (proj1 (Hpaths p0)) as [q1 [_ Hop]]; [left; reflexivity|].
-          apply (Hnone q1 Hop).
+      + split.
+        * intros q. rewrite (Hpaths q). simpl. split.
+          -- intros [q1 [Hq Hop]]. subst. left. exact Hop.
+          -- intros [Hop|[Hnone _]]; [exists q; auto|].
+             exfalso. destruct e as [nm0 p0].
+             destruct (proj1 (Hpaths p0)) as [q1 [_ Hop]]; [left; reflexivity|].
+             apply (Hnone q1 Hop).
+        * intros nm q Hin. destruct (Hfw nm q Hin) as [q1 [_ [Hq Hnm]]]. simpl in Hq. subst q1. exact Hnm.
   Qed.
 
   Theorem auto_name_with_total t : exists t' m, auto_name_with letters handles t = Some (t', m).
